@@ -168,6 +168,13 @@ pub fn run_point(rep: &mut Report, rng: &mut Rng, thorough: bool, index: usize) 
                 inputs.insert(0, (0..period * 2 + 700).map(|k| base[k % period]).collect());
             }
         }
+        if index == 0 {
+            // the first (in-range) point also gets inputs that compress better than 32:1 and are longer than 2 MiB:
+            // an LZMA2 chunk then ends at the limit of its 21-bit uncompressed-size field, not at 64 KiB of output
+            inputs.push(vec![0u8; (2 << 20) + 300]);
+            let pat = rng.bytes(1024);
+            inputs.push((0..(3usize << 20) + 77).map(|k| pat[k % 1024]).collect());
+        }
         let mut first = true;
         for data in &inputs {
             let huge_dict = o.dict > (1 << 28);
